@@ -25,11 +25,11 @@ ANCHORS = ["ocp:Ocp._transcribe", "stage:Stage._set_transcribed", "stage:Stage.m
 CASE_LIMIT = {"quick": 240, "thorough": 400}
 
 PROFILE = {"methods": ["MS", "SS", "DC"], "alg": 0.2, "intgs": ["rk", "expl_euler"],
-           "grids": ["uniform", "geometric", "function"], "t0_kinds": ["num", "num", "free"], "T_kinds": ["num", "num", "free"],
+           "grids": ["uniform", "geometric", "function"], "t0_kinds": ["num", "num", "free"], "T_kinds": ["num", "num", "free", "param"],
            "N": [1, 2, 3], "M": [1, 2], "degrees": [1, 2, 3], "quad_states": 0.0, "allow_matrix": False}
 
 MUTATORS = ["set_value", "set_initial", "subject_to", "clear_constraints", "add_objective", "method", "solver", "set_T",
-            "set_t0"]
+            "set_t0", "set_rhs"]
 QUERIES = ["sample", "value", "jacobian", "solve"]
 
 
@@ -59,7 +59,12 @@ def gen_cases(rng, tier):
                 if ce:
                     op.update(ce)
                 else:
-                    op.update({"name": p["name"], "value": rand_value(rng, p, curN)})
+                    prev = [o["value"] for o in ops if o["op"] == "set_value" and o.get("name") == p["name"]] + [p["value"]]
+                    val = rand_value(rng, p, curN)
+                    prev = [v_ for v_ in prev if np.array(v_).shape == np.array(val).shape]
+                    if prev and rng.random() < 0.3:
+                        val = rng.choice(prev)       # back to a value the parameter had before
+                    op.update({"name": p["name"], "value": val})
             elif kind == "set_initial":
                 free = [key for key in ("T", "t0") if spec[key]["kind"] == "free"]
                 if free and rng.random() < 0.4:
@@ -100,6 +105,12 @@ def gen_cases(rng, tier):
                                  "ipopt.hessian_approximation": "limited-memory"}
                 # the user's own options dictionary edited in place and passed again (same object)
                 op["inplace"] = rng.random() < 0.4
+            elif kind == "set_rhs":
+                # a state's right-hand side / update rule declared again (same dimensions, other expression)
+                st_ = rng.choice([q for q in spec["states"] if not q.get("quad")])
+                lv = spec["leaves"]
+                op.update({"name": st_["name"], "mat": ocpgen.rand_mat(rng, st_["shape"], [rng.choice(lv["u"])] if lv["u"] else [],
+                                                                       lv["x"], depth=2)})
             elif kind == "set_T":
                 if spec["T"]["kind"] != "num":
                     continue
@@ -150,6 +161,26 @@ def gen_cases(rng, tier):
             scen = [{"op": "set_initial", "name": t_["name"], "mat": mat}, {"op": rng.choice(["sample", "solve"])},
                     {"op": "set_value", "name": pp_["name"], "value": rand_value(rng, pp_, curN)}, {"op": "sample"}]
             ops = ops + scen
+        if i % 5 == 3 and spec["params"] and not any(o["op"] == "method" for o in ops):
+            # scenario family: a value changed and changed back between two queries
+            from .c09 import rand_value
+            pp_ = rng.choice(spec["params"])
+            cur = [o["value"] for o in ops if o["op"] == "set_value" and o.get("name") == pp_["name"]]
+            v1 = cur[-1] if cur else pp_["value"]
+            scen = [{"op": rng.choice(["sample", "solve"])},
+                    {"op": "set_value", "name": pp_["name"], "value": rand_value(rng, pp_, curN)},
+                    {"op": "set_value", "name": pp_["name"], "value": v1}, {"op": "sample"}]
+            ops = ops + scen
+        if spec["T"]["kind"] == "param" and i % 3 == 0:
+            # scenario family: a guess written in terms of the horizon (not of ocp.t), horizon parameter changed later
+            tg2 = [s_ for s_ in spec["controls"] if s_["shape"][1] == 1]
+            if tg2:
+                t_ = rng.choice(tg2)
+                mat = [[["c", ocpgen.rnd(rng, -1, 1)]] for _ in range(t_["shape"][0])]
+                mat[0][0] = ["+", ["*", ["c", ocpgen.rnd(rng, 0.5, 2)], ["T"]], mat[0][0]]
+                ops = ops + [{"op": "set_initial", "name": t_["name"], "mat": mat}, {"op": "sample"},
+                             {"op": "set_value", "name": spec["T"]["name"], "value": [[ocpgen.rnd(rng, 0.3, 3.0, 3)]]},
+                             {"op": "sample"}]
         if not any(o["op"] in QUERIES for o in ops):
             ops.insert(rng.randint(0, len(ops)), {"op": "sample"})
         ops.append({"op": rng.choice(["sample", "solve"])})
@@ -185,6 +216,9 @@ def apply_shadow(shadow, op):
         shadow["method"] = op["method"]
     elif k == "solver":
         shadow["solver_options"] = op["options"]
+    elif k == "set_rhs":
+        shadow["rhs"] = dict(shadow["rhs"])
+        shadow["rhs"][op["name"]] = op["mat"]
     elif k == "set_T":
         shadow["T"] = {"kind": "num", "val": op["value"]}
     elif k == "set_t0":
@@ -207,7 +241,7 @@ def run_case(case):
     spec = case["spec"]
     ops = case["ops"]
     pattern = "".join({"set_value": "v", "set_initial": "i", "subject_to": "c", "clear_constraints": "x",
-                       "add_objective": "o", "method": "m", "solver": "s", "set_T": "T", "set_t0": "t", "sample": "Q",
+                       "add_objective": "o", "method": "m", "solver": "s", "set_T": "T", "set_t0": "t", "set_rhs": "r", "sample": "Q",
                        "value": "Q", "jacobian": "Q", "solve": "S"}[o["op"]] for o in ops)
     sig = C.config_sig(spec, pattern)
     res = {"sig": sig, "evals": 0, "violations": [],
@@ -302,6 +336,11 @@ def run_case(case):
                     else:
                         live_opts = copy.deepcopy(op["options"])
                     ocp.solver("ipopt", live_opts)
+                elif k == "set_rhs":
+                    if spec.get("dyn") == "next":
+                        ocp.set_next(b.syms[op["name"]], b.ca_mat(op["mat"]))
+                    else:
+                        ocp.set_der(b.syms[op["name"]], b.ca_mat(op["mat"]))
                 elif k == "set_T":
                     ocp.set_T(op["value"])
                 elif k == "set_t0":
